@@ -317,6 +317,7 @@ package raft
 //@   ensures [state] r.state == old(r.state) || (old(r.state) == Leader && r.state == Follower)
 //@   ensures [stepdown-on-removal] !(r.id in next.Members) ==> r.state != Leader
 //@   ensures [I11] r.operationManager != nil && r.operationManager.leaderLease != nil && r.operationManager.pendingReplicated != nil && r.operationManager.pendingReadOnly != nil && (forall o *Operation :: o in r.operationManager.pendingReadOnly ==> o != nil)
+//@   ensures [manager] r.state == old(r.state) ==> r.operationManager == old(r.operationManager)
 //@   ensures [tables-empty-on-stepdown] old(r.state) == Leader && r.state != Leader ==> (forall k uint64 :: !(k in r.operationManager.pendingReplicated)) && (forall o *Operation :: !(o in r.operationManager.pendingReadOnly))
 //@   ensures [answered-mono] forall c int :: old(answered[c]) ==> answered[c]
 //@   ensures [clock] now >= old(now)
